@@ -233,6 +233,23 @@ class Check:
             res.pop()
         if len(res) != len(lines):
             raise RuntimeError("harness answered %d lines for %d requests" % (len(res), len(lines)))
+        # every deterministic request of the runtime harness is also put to the build WITHOUT debug assertions and
+        # overflow checks: the runtime crate must answer the same in an optimised dependent build
+        if harness == "rt" and profile == "release" and env is None and cwd is None and \
+                not any(l.startswith(("sched", "conc", "setenv", "unsetenv")) for l in lines):
+            exe2 = os.path.join(CACHE, "target", harness, "nodebug", binary)
+            if os.path.exists(exe2):
+                rc2, out2, err2 = sh([exe2], inp="\n".join(lines) + "\n", timeout=3600)
+                res2 = out2.split("\n")
+                if res2 and res2[-1] == "":
+                    res2.pop()
+                self.profile_requests = getattr(self, "profile_requests", 0) + len(lines)
+                if rc2 != 0 or len(res2) != len(res):
+                    self.profile_diffs = getattr(self, "profile_diffs", []) + [dict(request="(whole batch)", with_debug_assertions="%d answers" % len(res), without="rc=%s, %d answers: %s" % (rc2, len(res2), err2[-300:]))]
+                else:
+                    for l, a, b in zip(lines, res, res2):
+                        if a != b:
+                            self.profile_diffs = getattr(self, "profile_diffs", []) + [dict(request=l[:600], with_debug_assertions=a[:400], without=b[:400])]
         return res
 
     # ------------------------------------------------------------------ bookkeeping
@@ -277,6 +294,13 @@ class Check:
         self.violations.append(dict(key=key, what=what, replay=path, no_input=no_input))
 
     def finish(self, level_note=""):
+        if getattr(self, "profile_requests", 0):
+            diffs = getattr(self, "profile_diffs", [])
+            self.corr_record("T4 two build profiles (every deterministic request of the runtime harness answered by the build with and by the build without debug assertions / overflow checks)",
+                             self.profile_requests, self.profile_requests, len(diffs), {}, samples=diffs[:2], rule="the requests of this run's T4 ties")
+            if diffs and not [v for v in self.violations if not v["no_input"]]:
+                self.report("profile-dependent", "the runtime crate behaves differently when built without debug assertions / overflow checks",
+                            dict(first=diffs[:3], count=len(diffs), broken="correspondence T4/build profiles: the model describes one behaviour"), no_input=True)
         # proof obligations that no longer check are violations without a failing input,
         # unless the search already produced one
         if self.proof_failures and not [v for v in self.violations if not v["no_input"]]:
